@@ -769,7 +769,7 @@ func c2TrimmedPath(c *Ctx, rule string) {
 	if !c.Anchor(rule, "zapcore.EntryCaller.TrimmedPath", fn != nil && len(fn.Params) == 1) {
 		return
 	}
-	const N = 3
+	N := depth(3, 5)
 	rn := fn.Params[0].Name()
 	iv := func(f SliceFact) string { return "[" + itoa(int(f.Lo)) + "," + itoa(int(f.Hi)) + ")" }
 	seqs, trunc := ConcPaths(fn, ConcCfg{
@@ -779,7 +779,7 @@ func c2TrimmedPath(c *Ctx, rule string) {
 			}
 			return 0, false
 		},
-		SliceLenOf: func(d string) (int64, bool) { return N, d == rn+".File" },
+		SliceLenOf: func(d string) (int64, bool) { return int64(N), d == rn+".File" },
 		Inline:     func(h *ssa.Function) bool { return h.Name() != "FullPath" },
 		Fork: func(in ssa.Instruction, st *ConcState) []ConcAlt {
 			x, ok := in.(*ssa.Call)
